@@ -15,7 +15,9 @@
 //! offsets / 64 KiB methods / complete operand ranges / pool indices up to 65534 (`big`), per-bit
 //! flags, versions × minors, names, all UTF-16 code units, member-attachment products, bootstrap
 //! sharing, table cross products (`facts`), the CLDC `StackMap` arm (`cldc`), the reader's own
-//! resource limits met exactly (`limits`).
+//! resource limits met exactly (`limits`), the environment (`env`: every class through scripted
+//! `Read + Seek` behaviours — short serves, `BufReader` capacities, one boundary at every byte offset,
+//! `Interrupted` — must be read to the same tree as from a cursor).
 //!
 //! Clause table (statement of C01 → where it is decided; oracle everywhere: `check_bytes` =
 //! sdiff(reference parse of the same bytes, projection of the tree the real reader returns), plus
@@ -57,6 +59,11 @@ mod facts;
 mod cldc;
 #[path = "c01/limits.rs"]
 mod limits;
+#[path = "c01/env.rs"]
+mod env;
+#[allow(dead_code)]
+#[path = "c20/io.rs"]
+mod io;
 
 /// hex with a lookup table (the replay text of a 2 MiB class is built for every watched case)
 pub(crate) fn fast_hex(bytes: &[u8]) -> String {
@@ -203,6 +210,9 @@ fn main() {
 		check_bytes(ctx, &mut st, &label, &bytes, None);
 		let mut st2 = Stats::new();
 		check_bytes(ctx, &mut st2, &label, &bytes, None);
+		if label.starts_with("env/") {
+			env::replay(ctx, &mut st, &label, &bytes);
+		}
 		ctx.finish(json!({"evaluations": 2, "distinct_nontrivial": 2, "rule": "replay of one class file, twice", "samples": [body.lines().next()]}), &[]);
 	}
 	let quick = ctx.tier == Tier::Quick;
@@ -243,6 +253,7 @@ fn main() {
 		("facts-flags-versions-names-members-bootstrap-tables", facts::run),
 		("cldc-stackmap", cldc::run),
 		("reader-limits-met-exactly", limits::run),
+		("environment-short-reads", env::run),
 	] {
 		let t0 = ctx.elapsed_s();
 		let (st, bounds) = f(ctx);
@@ -307,5 +318,6 @@ fn main() {
 		"byte-level attribute permutations keep a class well-formed and its statement unchanged (self-checked: the reference parser reads the same class description from the permuted bytes)",
 		"the CLDC StackMap attribute is read with the meaning its specification defines (frames in ascending offset order), as cfmodel's reference parser does",
 		"element values nested deeper than 64 and dynamic constants nested deeper than 32 are beyond the reference parser's bounds and are not explored",
+		"a class file is the same class file through every legal std::io::Read + Seek: requests served short and Interrupted (retry) are legal answers of the environment; the scripted readers are self-tested before use",
 	]);
 }
